@@ -83,32 +83,45 @@ package protocol
 //@   props C03, C17
 //@   alias dst
 //@   modifies spare(dst), qk
+//@   frame-prop C03
 //@   allocates
+//@   requires @C17 qok ==> isArgEncoding(src) && !sameArray(dst, src)
 //@   ghostset-at-entry qk = 0
 //@   ghostset after append#2: qk = qk + 1
 //@   ghostset after append#3: qk = qk + 1
 //@   ghostset after append#4: qk = qk + 1
 //@   ghostset after append#5: qk = qk + 1
-//@   assert @C17 before append#1: old(isArgEncoding(src)) && !sameArray(old(dst), src) && 0 <= qk && qk < qn && i == qpos[qk] && qx[qk] >= -1 ==> false
-//@   assert @C17 before append#2: old(isArgEncoding(src)) && !sameArray(old(dst), src) && 0 <= qk && qk < qn && i == qpos[qk] && qx[qk] >= -1 ==> false
+//@   assert @C17 before append#1: qok && 0 <= qk && qk < qn && i == qpos[qk] && qx[qk] >= -1 ==> false
+//@   assert @C17 before append#2: qok && 0 <= qk && qk < qn && i == qpos[qk] && qx[qk] >= -1 ==> false
 //@   assert @C17 before IndexByte#0: hexTablesInverse() && argTablesFacts()
-//@   assert @C17 before append#3: old(isArgEncoding(src)) && !sameArray(old(dst), src) && 0 <= qk && qk < qn && i == qpos[qk] ==> escArg(qx[qk]) && qx[qk] != ' '
-//@   assert @C17 before append#3: old(isArgEncoding(src)) && !sameArray(old(dst), src) && 0 <= qk && qk < qn && i == qpos[qk] ==> src[i+1] == hexU(qx[qk] / 16) && src[i+2] == hexU(qx[qk] % 16) && qpos[qk+1] == i + 3
+//@   assert @C17 before append#3: qok && 0 <= qk && qk < qn && i == qpos[qk] ==> escArg(qx[qk]) && qx[qk] != ' '
+//@   assert @C17 before append#3: qok && 0 <= qk && qk < qn && i == qpos[qk] ==> src[i+1] == hexU(qx[qk] / 16) && src[i+2] == hexU(qx[qk] % 16) && qpos[qk+1] == i + 3
 //@   assert @C17 before append#3: x1 == hexv(src[i+1]) && x2 == hexv(src[i+2])
-//@   assert @C17 before append#3: old(isArgEncoding(src)) && !sameArray(old(dst), src) && 0 <= qk && qk < qn && i == qpos[qk] ==> 0 <= qx[qk] / 16 && qx[qk] / 16 < 16 && hexv(hexU(qx[qk] / 16)) == qx[qk] / 16 && hexv(hexU(qx[qk] % 16)) == qx[qk] % 16
-//@   assert @C17 before append#3: old(isArgEncoding(src)) && !sameArray(old(dst), src) && 0 <= qk && qk < qn && i == qpos[qk] ==> x1 == qx[qk] / 16 && x2 == qx[qk] % 16
-//@   assert @C17 before append#4: old(isArgEncoding(src)) && !sameArray(old(dst), src) && 0 <= qk && qk < qn && i == qpos[qk] ==> qx[qk] == ' ' && qpos[qk+1] == i + 1
-//@   assert @C17 before append#5: old(isArgEncoding(src)) && !sameArray(old(dst), src) && 0 <= qk && qk < qn && i == qpos[qk] ==> qx[qk] == c && qpos[qk+1] == i + 1
-//@   assert @C17 after append#3: old(isArgEncoding(src)) && !sameArray(old(dst), src) && 0 <= qk && qk < qn && i == qpos[qk] && len(dst) == len(old(dst)) + qk && forallT(j, 0, qk, qx[j], dst[len(old(dst)) + j] == qx[j]) ==> len(result) == len(old(dst)) + qk + 1 && result[len(old(dst)) + qk] == qx[qk] && forallT(j, 0, qk, qx[j], result[len(old(dst)) + j] == qx[j])
-//@   assert @C17 after append#4: old(isArgEncoding(src)) && !sameArray(old(dst), src) && 0 <= qk && qk < qn && i == qpos[qk] && len(dst) == len(old(dst)) + qk && forallT(j, 0, qk, qx[j], dst[len(old(dst)) + j] == qx[j]) ==> len(result) == len(old(dst)) + qk + 1 && result[len(old(dst)) + qk] == qx[qk] && forallT(j, 0, qk, qx[j], result[len(old(dst)) + j] == qx[j])
-//@   assert @C17 after append#5: old(isArgEncoding(src)) && !sameArray(old(dst), src) && 0 <= qk && qk < qn && i == qpos[qk] && len(dst) == len(old(dst)) + qk && forallT(j, 0, qk, qx[j], dst[len(old(dst)) + j] == qx[j]) ==> len(result) == len(old(dst)) + qk + 1 && result[len(old(dst)) + qk] == qx[qk] && forallT(j, 0, qk, qx[j], result[len(old(dst)) + j] == qx[j])
+//@   assert @C17 before append#3: qok && 0 <= qk && qk < qn && i == qpos[qk] ==> 0 <= qx[qk] / 16 && qx[qk] / 16 < 16 && hexv(hexU(qx[qk] / 16)) == qx[qk] / 16 && hexv(hexU(qx[qk] % 16)) == qx[qk] % 16
+//@   assert @C17 before append#3: qok && 0 <= qk && qk < qn && i == qpos[qk] ==> x1 == qx[qk] / 16 && x2 == qx[qk] % 16
+//@   assert @C17 before append#4: qok && 0 <= qk && qk < qn && i == qpos[qk] ==> qx[qk] == ' ' && qpos[qk+1] == i + 1
+//@   assert @C17 before append#5: qok && 0 <= qk && qk < qn && i == qpos[qk] ==> qx[qk] == c && qpos[qk+1] == i + 1
+//@   assert @C17 after append#3: 0 <= x1 && x1 < 16 && 0 <= x2 && x2 < 16 ==> len(result) == len(dst) + 1 && result[len(dst)] == x1 * 16 + x2
+//@   assert @C17 after append#3: qok && 0 <= qk && qk < qn && i == qpos[qk] && len(dst) == len(old(dst)) + qk ==> len(result) == len(old(dst)) + qk + 1 && result[len(old(dst)) + qk] == qx[qk]
+//@   assert @C17 after append#3: 0 <= qk && len(dst) == len(old(dst)) + qk && forallT(j, 0, qk, qx[j], dst[len(old(dst)) + j] == qx[j]) ==> forallT(j, 0, qk, qx[j], result[len(old(dst)) + j] == qx[j])
+//@   assert @C17 after append#3: qok && 0 <= qk && qk < qn && i == qpos[qk] && len(dst) == len(old(dst)) + qk && forallT(j, 0, qk, qx[j], dst[len(old(dst)) + j] == qx[j]) ==> forallT(j, 0, qk + 1, qx[j], result[len(old(dst)) + j] == qx[j])
+//@   assert @C17 after append#4: len(result) == len(dst) + 1 && result[len(dst)] == ' '
+//@   assert @C17 after append#4: qok && 0 <= qk && qk < qn && i == qpos[qk] && len(dst) == len(old(dst)) + qk ==> len(result) == len(old(dst)) + qk + 1 && result[len(old(dst)) + qk] == qx[qk]
+//@   assert @C17 after append#4: 0 <= qk && len(dst) == len(old(dst)) + qk && forallT(j, 0, qk, qx[j], dst[len(old(dst)) + j] == qx[j]) ==> forallT(j, 0, qk, qx[j], result[len(old(dst)) + j] == qx[j])
+//@   assert @C17 after append#4: qok && 0 <= qk && qk < qn && i == qpos[qk] && len(dst) == len(old(dst)) + qk && forallT(j, 0, qk, qx[j], dst[len(old(dst)) + j] == qx[j]) ==> forallT(j, 0, qk + 1, qx[j], result[len(old(dst)) + j] == qx[j])
+//@   assert @C17 after append#5: len(result) == len(dst) + 1 && result[len(dst)] == c
+//@   assert @C17 after append#5: qok && 0 <= qk && qk < qn && i == qpos[qk] && len(dst) == len(old(dst)) + qk ==> len(result) == len(old(dst)) + qk + 1 && result[len(old(dst)) + qk] == qx[qk]
+//@   assert @C17 after append#5: 0 <= qk && len(dst) == len(old(dst)) + qk && forallT(j, 0, qk, qx[j], dst[len(old(dst)) + j] == qx[j]) ==> forallT(j, 0, qk, qx[j], result[len(old(dst)) + j] == qx[j])
+//@   assert @C17 after append#5: qok && 0 <= qk && qk < qn && i == qpos[qk] && len(dst) == len(old(dst)) + qk && forallT(j, 0, qk, qx[j], dst[len(old(dst)) + j] == qx[j]) ==> forallT(j, 0, qk + 1, qx[j], result[len(old(dst)) + j] == qx[j])
+//@   assert @C17 before append#3: qok && 0 <= qk && qk < qn && i == qpos[qk] ==> 0 <= qx[qk] && qx[qk] <= 255
+//@   assert @C17 before append#3: qok && 0 <= qk && qk < qn && i == qpos[qk] ==> 0 <= x1 && x1 < 16 && 0 <= x2 && x2 < 16 && x1 * 16 + x2 == qx[qk]
 //@   ensures @C03 extends(r, dst) && spareOnly(dst)
-//@   top-ensures @C17 old(isArgEncoding(src)) && !sameArray(dst, src) ==> len(r) == len(dst) + qn && forallT(k, 0, qn, qx[k], r[len(dst) + k] == qx[k])
+//@   top-ensures @C17 qok ==> len(r) == len(dst) + qn && forallT(k, 0, qn, qx[k], r[len(dst) + k] == qx[k])
 //@   loop 0:
 //@     invariant 0 <= i && i <= len(src)
 //@     invariant @C03 extends(dst, old(dst)) && spareOnly(old(dst))
-//@     invariant @C17 old(isArgEncoding(src)) && !sameArray(old(dst), src) ==> 0 <= qk && qk <= qn && i == qpos[qk] && len(dst) == len(old(dst)) + qk
-//@     invariant @C17 old(isArgEncoding(src)) && !sameArray(old(dst), src) ==> forallT(j, 0, qk, qx[j], dst[len(old(dst)) + j] == qx[j])
+//@     invariant @C17 qok ==> 0 <= qk && qk <= qn && i == qpos[qk] && len(dst) == len(old(dst)) + qk
+//@     invariant @C17 qok ==> forallT(j, 0, qk, qx[j], dst[len(old(dst)) + j] == qx[j])
 
 //@ func decodeCookieArg(dst, src, skipQuotes) r
 //@   props C03
